@@ -170,15 +170,15 @@ type Sim struct {
 
 	Stats Stats
 
-	stepHooks  []func() error
+	stepHooks    []func() error
 	releaseHooks []func(task, site string)
-	crashHooks map[string]func()
-	stopFns    []func()
-	violation  *Violation
-	soft       *Violation
-	MaxSteps   int
-	MaxVirtual time.Duration
-	anonSeq    int
+	crashHooks   map[string]func()
+	stopFns      []func()
+	violation    *Violation
+	soft         *Violation
+	MaxSteps     int
+	MaxVirtual   time.Duration
+	anonSeq      int
 	// SetupNode is the node incarnation that goroutines started from the
 	// scheduler goroutine (harness set-up code) are attributed to.
 	SetupNode string
@@ -1444,3 +1444,12 @@ func MapKeys[M ~map[K]V, K comparable, V any](m M) []K {
 	}
 	return out
 }
+
+// Method values of the sync primitives (mu.Unlock passed around as a func): the weaver
+// replaces them with these closures.
+func LockFn(m *sync.Mutex, site string) func()    { return func() { Lock(m, site) } }
+func UnlockFn(m *sync.Mutex) func()               { return func() { Unlock(m) } }
+func WLockFn(m *sync.RWMutex, site string) func() { return func() { WLock(m, site) } }
+func WUnlockFn(m *sync.RWMutex) func()            { return func() { WUnlock(m) } }
+func RLockFn(m *sync.RWMutex, site string) func() { return func() { RLock(m, site) } }
+func RUnlockFn(m *sync.RWMutex) func()            { return func() { RUnlock(m) } }
